@@ -224,7 +224,9 @@ def run_property(prop, tier, seed, module):
             from . import selftest
             selftest.run(ctx)
     except mir.AnchorMissing as e:
-        ctx.report("anchor", str(e).replace(" ", "_")[:120], "fail closed: %s" % e)
+        # a function / type / variant the rules are anchored in no longer exists under its pinned name: the code was restructured.
+        # That is not evidence against the property; the rules that ran up to this point stand, the rest is undecided.
+        ctx.undecided("anchor", str(e).replace(" ", "_")[:120], "%s: the rules of this check that are anchored there were not applied" % e)
         explanation, not_decided = getattr(module, "EXPLANATION", "anchor missing"), getattr(module, "NOT_DECIDED", "")
     except Exception as e:  # a crash of the analyser is not a verdict: fail closed, visibly
         traceback.print_exc()
